@@ -81,7 +81,8 @@ fn scen_desc(s: &Scen) -> Value {
 
 fn alphabet(fam: &Family, big: bool) -> Vec<Vec<f64>> {
     let mut v: Vec<Vec<f64>> = match fam {
-        Family::Exp1Off => vec![vec![1.0], vec![1.25], vec![2.5], vec![0.3], vec![40.0], vec![0.001], vec![-0.001]],
+        // 0.0625 / 0.00833: the last sample of the 7-point grid is exp(-96) (a denormal f32) resp. exp(-720) (a denormal f64)
+        Family::Exp1Off => vec![vec![1.0], vec![1.25], vec![2.5], vec![0.3], vec![40.0], vec![0.001], vec![-0.001], vec![0.0625], vec![0.00833]],
         Family::Exp2Off => vec![vec![1.0, 3.5], vec![0.75, 3.0], vec![0.5, 5.0], vec![4.0, 0.2], vec![2.0, 2.0], vec![0.001, 3.0], vec![1.0, -0.001]],
         Family::Exp3 => vec![vec![0.6, 2.0, 5.0], vec![0.5, 1.75, 6.0], vec![1.0, 1.0, 4.0], vec![0.3, 3.0, 9.0], vec![2.0, 2.0, 2.0], vec![5.0, 0.5, 1.5]],
         Family::GaussDecayOff => vec![vec![2.2, 0.7, 1.4], vec![2.0, 0.625, 1.5], vec![1.0, 1.0, 3.0], vec![3.5, 0.3, 0.5], vec![2.5, 2.0, 2.0], vec![0.5, 0.5, 6.0]],
@@ -902,6 +903,15 @@ fn explore<T: Sc>(ctx: &Ctx, sc: &Scen, sc_index: usize, prop: &str, only_path: 
     let r = guarded(|| ex.run());
     if let Err(msg) = r {
         let c = json!({"tier": ctx.args.tier, "scenario_index": sc_index, "scenario": scen_desc(sc), "history": []});
+        if ctx.args.property == "C06" && msg.starts_with("scenario builds") {
+            // the weighted subject is rejected by build(): a violation of C06 when its row-scaled / unweighted twin is built
+            let twin_role = if ex.roles.contains(&Role::RowScaled) { Role::RowScaled } else { Role::Unweighted };
+            let a0 = ex.alphas_t[0].clone();
+            if ex.env.w.is_some() && guarded(|| build_role(&ex.env, sc, &twin_role, &a0)).is_ok() {
+                ctx.with(|s| s.violate("C06", "weighted-rejected-while-twin-builds", c.clone(), format!("the weighted problem is rejected ({}), the {:?} twin is built", msg, twin_role)));
+                return;
+            }
+        }
         ctx.with(|s| {
             s.violate("C08", "panic:probstate", c.clone(), format!("panicked while exploring: {}", msg));
             s.inc("blocked_cases");
@@ -1260,7 +1270,7 @@ fn scenarios(prop: &str, thorough: bool) -> Vec<Scen> {
             }
         }
         "C06" => {
-            let weights = [WKind::Ones, WKind::Threes, WKind::Dyadic, WKind::Ramp, WKind::InvSigma, WKind::Spread, WKind::ZeroAt(0), WKind::ZeroAt(3), WKind::NegAt(1), WKind::NegAt(4), WKind::Tiny, WKind::Huge, WKind::NegRamp, WKind::NegRampZeroAt(2)];
+            let weights = [WKind::Ones, WKind::Threes, WKind::Dyadic, WKind::Ramp, WKind::InvSigma, WKind::Spread, WKind::ZeroAt(0), WKind::ZeroAt(3), WKind::NegAt(1), WKind::NegAt(4), WKind::Tiny, WKind::Huge, WKind::NegRamp, WKind::NegRampZeroAt(2), WKind::Astro];
             for (fi, (fam, n)) in base_families().iter().enumerate() {
                 for prov in provs {
                     for f32_ in [false, true] {
